@@ -322,6 +322,10 @@ def currently_exiting_context(frame: types.FrameType) -> Optional[ExitingContext
             while code[offs] == op["CACHE"] and offs >= 2:
                 offs -= 2
             is_async = True
+        if code[offs] == op["CACHE"] and offs >= 2 and code[offs - 2] == op["SEND"]:
+            # On 3.12+, a frame that is running (not suspended) inside the
+            # awaited call has lasti pointing at SEND's inline cache entry
+            offs -= 2
         if code[offs] == op["SEND"]:
             offs -= 2
             is_async = True
